@@ -246,8 +246,8 @@ def iface_tables(ctx, it):
             for x in mir.calls(g):
                 if x.is_("emit") and "SignalEmitter" in x.callee and len(x.args) >= 4:
                     nm = lit(g, x.args[2])
-                    if nm == "PropertiesChanged":
-                        continue
+                    if nm == "PropertiesChanged" and b.name != "properties_changed":
+                        continue   # `<prop>_changed` / `<prop>_invalidate` helpers, not a signal of this interface
                     if nm is None:
                         ctx.ob("X-SIGNALS", "%s:emit-name-readable:%s" % (it.key, b.name), False, "signal name is not a literal", x.where)
                         continue
